@@ -48,6 +48,10 @@ func main() {
 		fmt.Println(concRun(*seed, *n/1000, *n%1000))
 		return
 	}
+	if fam == "debug-child" { // child of a conc.debug record
+		concDebugChild(*seed)
+		return
+	}
 	f, ok := families[fam]
 	if !ok {
 		fmt.Fprintln(os.Stderr, "unknown family", fam)
